@@ -189,11 +189,11 @@ func init() {
 	}
 	a4 = append(a4, topOnly("bind b -> struct"), topOnly("bind c -> struct"), topOnly("bind b:all -> slice"),
 		topOnly("bind a:2 -> struct"), topOnly("bind a:foo -> slice"), topOnly("bind a -> oops"), topOnly("print 1/0"),
-		topOnly("def c { bind a -> slice }"))
+		topOnly("def c { bind a -> slice }"), topOnly("def c { def a { i = 9 } }"))
 	registerSeq(seqSpec{
 		id: "C04",
-		rule: "explicit enumeration of all toplevel statement sequences up to length L (quick 5, thorough 6; rejected prefixes are not extended) over a 22-symbol alphabet: three distinguishable block definitions of two types, bind with every selector (none, 1, first, last, all) x target (struct, slice), " +
-			"bind of another / of a missing type, the compile-error forms (:all->struct, :2, :foo, ->oops), a bind inside a block, a runtime error. Compared with a trivial reference: binding kind and exact blocks, runtime-error class, rejection, one warning per bind after the first, nil binding without bind.",
+		rule: "explicit enumeration of all toplevel statement sequences up to length L (quick 5, thorough 6; rejected prefixes are not extended) over a 23-symbol alphabet: three distinguishable block definitions of two types, bind with every selector (none, 1, first, last, all) x target (struct, slice), " +
+			"bind of another / of a missing type, the compile-error forms (:all->struct, :2, :foo, ->oops), a bind inside a block, a block of the bound type nested inside another block (must not be selected), a runtime error. Compared with a trivial reference: binding kind and exact blocks, runtime-error class, rejection, one warning per bind after the first, nil binding without bind.",
 		sub: newRefSub("c04.seq"), alpha: a4,
 		extra: func(c *fw.Ctx, do func(string)) {
 			// bind statements whose block-type constant has index >= 241 (2- and 3-byte operands)
